@@ -108,7 +108,7 @@ func (c *Collection) Update(id string, msg proto.Message, opts ...WriteOption) (
 	}
 
 	var created proto.Message // during create, this is returned by GetFn so concurrent reference checks pass
-	oldValue, newValue, err := GetAndUpdate(
+	_, newValue, err := GetAndUpdate(
 		&c.mu,
 		func() (item proto.Message, err error) {
 			if created != nil {
@@ -154,7 +154,23 @@ func (c *Collection) Update(id string, msg proto.Message, opts ...WriteOption) (
 		},
 		writeRequest.changeFn(writer, msg),
 		func(msg proto.Message) {
+			changeType := types.ChangeType_ADD
+			var oldValue proto.Message
+			if old, exists := c.byId[id]; exists {
+				changeType = types.ChangeType_UPDATE
+				oldValue = old.body
+			}
 			c.byId[id] = &item{body: msg, changeTime: writeRequest.updateTime(c.clock)}
+			// publish while the write lock is still held, like Delete does: events then reach subscribers in
+			// the order the changes were committed, and a Pull can't open between a commit and its event
+			// (it would get the change twice: in its initial values and as an event).
+			c.bus.Send(context.TODO(), &CollectionChange{
+				Id:         id,
+				ChangeTime: writeRequest.updateTime(c.clock),
+				ChangeType: changeType,
+				OldValue:   oldValue,
+				NewValue:   msg,
+			})
 		})
 
 	if err != nil {
@@ -163,18 +179,6 @@ func (c *Collection) Update(id string, msg proto.Message, opts ...WriteOption) (
 		}
 		return nil, err
 	}
-	changeType := types.ChangeType_UPDATE
-	if oldValue == nil || created != nil {
-		changeType = types.ChangeType_ADD
-		oldValue = nil
-	}
-	c.bus.Send(context.TODO(), &CollectionChange{
-		Id:         id,
-		ChangeTime: writeRequest.updateTime(c.clock),
-		ChangeType: changeType,
-		OldValue:   oldValue,
-		NewValue:   newValue,
-	})
 	return newValue, nil
 }
 
